@@ -10,6 +10,7 @@ import Driver.Deque
 import Driver.Faults
 import Driver.Sess
 import Driver.Own
+import Driver.Write
 
 open Drv
 
@@ -30,6 +31,7 @@ def dispatch (line : String) : Res :=
   | "faults" :: args => runFaults args
   | "sess" :: args => runSess args
   | "own" :: args => runOwn args
+  | "write" :: args => runWrite args
   | "racy" :: args => runRacy args
   | _ => bad "unknown-suite"
 
